@@ -104,10 +104,13 @@ def metadata_clauses(e):
        for c in cols.values() if not c["parentId"]]
   if p: out.append(("C09.column_has_table", {"problems": p[:6]}))
   p = []
+  table_sections = {t[k] for t in tables.values() for k in ("rawViewSectionRef", "recordCardViewSectionRef")}
   for f in fields:
     s = secs.get(f["parentId"]); c = cols.get(f["colRef"])
     if not f["parentId"] or not f["colRef"]:
-      p.append("field #%s has parentId %r colRef %r" % (f["id"], f["parentId"], f["colRef"]))
+      orphan = s is not None and not s["parentId"] and s["id"] not in table_sections
+      p.append("field #%s has parentId %r colRef %r%s" % (f["id"], f["parentId"], f["colRef"],
+               " [its section is on no page and is no table's raw / record-card section]" if orphan else ""))
     elif s is not None and c is not None and c["parentId"] != s["tableRef"]:
       p.append("field #%s of section #%s (table #%s) shows column #%s of table #%s"
                % (f["id"], s["id"], s["tableRef"], c["id"], c["parentId"]))
@@ -197,6 +200,10 @@ def requires(e, bundle):
 # generator: view / section / field / helper-column / summary actions
 # ------------------------------------------------------------------------------------------------
 
+#               0  1  2  3  4  5  6  7  8  9 10 11 12 13 14 15 16 17 18 19 20 21 22 23
+KIND_WEIGHTS = [3, 3, 1, 4, 3, 3, 4, 5, 4, 3, 3, 2, 5, 3, 2, 1, 2, 2, 2, 2, 2, 4, 3, 2]
+
+
 def structure_edit(e, g):
   rng = g.rng
   tables = eng.meta_records(e, "_grist_Tables")
@@ -220,7 +227,15 @@ def structure_edit(e, g):
   # summary table is only rarely used as a target here
   placed = [s for s in summaries if s["parentId"]]
   if placed and rng.random() < 0.9: summaries = placed
-  k = rng.randrange(24)
+  k = rng.choices(range(24), KIND_WEIGHTS)[0]
+  with_display = [x for x in cols if x["displayCol"]]
+  fields_with_display = [x for x in fields if x["displayCol"]]
+  if k == 7 and with_display and rng.random() < 0.6:      # change / clear an existing display formula
+    c = rng.choice(with_display)
+    return [["SetDisplayFormula", tname.get(c["parentId"], tid), None, c["id"],
+             rng.choice(["", "", "$id", "$r.n"])]]
+  if k == 6 and fields_with_display and rng.random() < 0.6:
+    f = rng.choice(fields_with_display)
   if k == 0:
     return [["CreateViewSection", t["id"], view["id"] if view and rng.random() < 0.6 else 0,
              rng.choice(["record", "detail", "single", "chart", "form"]), None, None]]
@@ -235,7 +250,7 @@ def structure_edit(e, g):
   if k == 6 and f:
     ft = next((s["tableRef"] for s in secs if s["id"] == f["parentId"]), None)
     return [["SetDisplayFormula", tname.get(ft, tid), f["id"], None,
-             rng.choice(["$r.s", "$r.n", "$id", "", "$s"])]]
+             rng.choice(["$r.s", "$r.n", "$id", "", "", "$s"])]]
   if k == 7:
     return [["SetDisplayFormula", tid, None, c["id"], rng.choice(["$r.s", "$r.n", "$id", "", "$s"])]]
   if k == 8:
@@ -344,6 +359,9 @@ class C09Monitor(explore.Monitor):
       for a in bundle:
         if isinstance(a, list) and a and a[0] in ("DetachSummaryViewSection", "UpdateSummaryViewSection"):
           return "raw section of a summary table re-targeted by %s" % a[0]
+    if clause == "C09.field_col_in_section_table" and probs and \
+        all(x.endswith("is no table's raw / record-card section]") and " colRef 0 " in x for x in probs):
+      return "field without column in an orphaned ex-raw section of a removed summary table"
     if clause == "C09.refs_resolve":
       return "dangling %s after %s" % (",".join(detail.get("kinds", [])), kinds)
     return "%s after %s" % (clause, kinds)
